@@ -440,6 +440,7 @@ class World(object):
 
     def _api(self, kind, conn, args, fn):
         if kind in self.TRACKED:
+            args['timeout_at_call'] = conn.timeout
             r = Req(len(self.reqs), kind, conn.addr, conn.idx, args, self.step, self.phase(conn))
             self.reqs.append(r)
         else:       # setters, disconnect, probes: recorded, but they do not shift request numbering / tags
